@@ -218,4 +218,64 @@ theorem prefixStates_inv {s : GasState} (gs : List Nat) (h : Inv s) :
         exact ⟨a, Nat.le_trans b hg, by rw [c, hs]⟩
     · simp at ht; subst ht; exact ⟨h, Nat.le_refl _, rfl⟩
 
+/-! ### charge plans: nothing but ECAL's `none` charge site makes a plan inexact -/
+
+theorem Plan.add_exact (p : Plan) (c : Except GasErr Nat) : (p.add c).exact = p.exact := by
+  unfold Plan.add
+  split
+  · split <;> rfl
+  · rfl
+
+theorem Plan.halt_exact (p : Plan) : p.halt.exact = p.exact := by
+  unfold Plan.halt; split <;> rfl
+
+theorem Plan.addNewEntry_exact (p : Plan) (sch : Schedule) (f : Nat) : (p.addNewEntry sch f).exact = p.exact := by
+  unfold Plan.addNewEntry; split
+  · rfl
+  · exact Plan.add_exact _ _
+
+theorem Plan.baseThen_exact (p : Plan) (sch : Schedule) (g : String) (u : Option Nat) :
+    (p.baseThen sch g u).exact = p.exact := by
+  unfold Plan.baseThen
+  cases u with
+  | none => simp only [Plan.halt_exact, Plan.add_exact]
+  | some u => simp only [Plan.add_exact]
+
+theorem slotStep_exact (sch : Schedule) (args : List Nat) (hot len : Nat) (p : Plan) (st : SStep) :
+    (slotStep sch args hot len p st).exact = p.exact := by
+  cases st with
+  | read => exact Plan.add_exact _ _
+  | write l =>
+    simp only [slotStep]
+    split
+    · exact Plan.halt_exact _
+    · rw [Plan.add_exact, Plan.add_exact]
+  | clear r => exact Plan.add_exact _ _
+
+theorem foldl_exact {α : Type} (f : Plan → α → Plan) (h : ∀ p a, (f p a).exact = p.exact) (l : List α) (p : Plan) :
+    (l.foldl f p).exact = p.exact := by
+  induction l generalizing p with
+  | nil => rfl
+  | cons a l ih => simp only [List.foldl_cons]; rw [ih, h]
+
+theorem slotSteps_exact (sch : Schedule) (args : List Nat) (steps : List SStep) (p : Plan) (slot : Nat × Nat) :
+    (slotSteps sch args steps p slot).exact = p.exact :=
+  foldl_exact _ (fun p st => slotStep_exact sch args slot.1 slot.2 p st) steps p
+
+theorem storagePlan_exact (sch : Schedule) (op : StorageOp) (args sizes : List Nat) (p : Plan) :
+    (storagePlan sch op args sizes p).exact = p.exact := by
+  unfold storagePlan
+  simp only
+  split
+  · split
+    · rw [Plan.halt_exact]
+      exact foldl_exact _ (fun p s => slotSteps_exact sch args _ p s) _ p
+    · rw [slotSteps_exact]
+      exact foldl_exact _ (fun p s => slotSteps_exact sch args _ p s) _ p
+  · split
+    · exact slotSteps_exact _ _ _ _ _
+    · split
+      · exact slotSteps_exact _ _ _ _ _
+      · exact Plan.halt_exact _
+
 end FuelVerif.Gas
